@@ -16,7 +16,9 @@ UnparseX(v) ==
     IF v = <<>> THEN <<>>
     ELSE LET h == Head(v) IN
          (IF h.k = "text" THEN h.s
-          ELSE IF h.k = "var" THEN <<"LB", "LB", "SP">> \o h.n \o <<"SP", "RB", "RB">>
+          ELSE IF h.k = "var" THEN <<"LB", "LB", "SP">> \o h.n
+                                   \o (IF "kind" \in DOMAIN h THEN <<"COMMA", "SP">> \o FormatterText(h.kind, h.written, h.written # <<>>, [n |-> <<>>, c |-> <<"SP">>, s |-> <<>>]) ELSE <<>>)
+                                   \o <<"SP", "RB", "RB">>
           ELSE IF h.k = "comp" THEN <<"LT">> \o h.n \o <<"GT">> \o UnparseX(h.c) \o <<"LT", "SL">> \o h.n \o <<"GT">>
           ELSE <<"DOL", "t", "LP">> \o h.tosym
                \o (IF h.args = <<>> THEN <<>> ELSE <<"COMMA", "SP", "LB">> \o ArgsJson(h.args) \o <<"RB">>) \o <<"RP">>)
@@ -200,6 +202,27 @@ F8Keys ==
 F8Case == ProjectCase("fk-literals", [def |-> "en", locs |-> <<"en", "fr">>, inh |-> << >>, vals |-> [l \in {"en", "fr"} |-> F8Keys]],
                       [k \in DOMAIN F8Keys |-> k], "none")
 
+\* F9: formatted variables behind references.  The target declares {{ v, formatter(args) }}; the referrer reaches it bare, with
+\* another variable bound, through a chain, inside a component / range branch / plural form of the target: the formatter recorded
+\* for the referrer's variable is the declared one
+WA(a, v) == [a |-> a, v |-> v]
+F9Keys ==
+    [pn |-> Val(<<VarF(<<"v">>, "number", << WA(<<"g","r","o","u","p","i","n","g","US","s","t","r","a","t","e","g","y">>, <<"a","l","w","a","y","s">>) >>)>>),
+     pc |-> Val(<<V(X), T(<<"COLON","SP">>), VarF(<<"v">>, "currency", << WA(<<"w","i","d","t","h">>, <<"n","a","r","r","o","w">>), WA(<<"c","u","r","r","e","n","c","y","US","c","o","d","e">>, <<"E","U","R">>) >>)>>),
+     pd |-> Val(<<Comp(<<"b">>, <<VarF(<<"v">>, "date", << WA(<<"d","a","t","e","US","l","e","n","g","t","h">>, <<"l","o","n","g">>) >>)>>)>>),
+     pr |-> [k |-> "ranges", ty |-> "i32", ck |-> Cnt,
+             b |-> << [alts |-> <<Exact(3)>>, v |-> <<T(<<"z">>)>>], [alts |-> <<Wild>>, v |-> <<VarF(<<"v">>, "list", <<>>), T(<<"SP">>), V(Cnt)>>] >>],
+     pp |-> [k |-> "plurals", ty |-> "cardinal", ck |-> Cnt,
+             forms |-> [one |-> <<VarF(<<"v">>, "time", <<>>)>>, other |-> <<V(Cnt), T(<<"SP">>), VarF(<<"v">>, "datetime", <<>>)>>]],
+     ra |-> Val(<<T(<<"T","COLON","SP">>), Fk(<<"p","n">>, <<>>)>>),
+     rb |-> Val(<<Fk(<<"p","c">>, <<ArgP(X, <<T(<<"A">>)>>)>>)>>),
+     rc |-> Val(<<Fk(<<"r","a">>, <<>>), T(<<"SP">>), Fk(<<"p","d">>, <<>>)>>),
+     rd |-> Val(<<Fk(<<"p","r">>, <<>>)>>),
+     re |-> Val(<<Fk(<<"p","p">>, <<ArgP(Cnt, <<V(NVar)>>)>>)>>),
+     rf |-> Val(<<Fk(<<"p","r">>, <<NumI32(4)>>)>>)]
+F9Case == ProjectCase("fk-formatters", [def |-> "en", locs |-> <<"en", "fr">>, inh |-> << >>, vals |-> [l \in {"en", "fr"} |-> F9Keys]],
+                      [k \in DOMAIN F9Keys |-> k], "none")
+
 \* F7: arm shapes.  Every range target whose three arms are drawn from {literal, variable, count, component around the variable}
 \* (the second locale holds the rotated triple, so the signature is a union), every plural target whose two forms are drawn from
 \* the same shapes, and for each target six referrers: bare; followed / preceded by the referrer's own {{ x }}; a component using
@@ -241,5 +264,5 @@ F7Case == LET vals == [l \in {"en", "fr"} |-> F7Vals(l)] IN
           ProjectCase("fk-arm-shapes", [def |-> "en", locs |-> <<"en", "fr">>, inh |-> << >>, vals |-> vals],
                       [k \in DOMAIN vals["en"] |-> k], "none")
 
-Families == <<F2Case, F3Plural, F6Case, F7Case, F8Case>> \o F3Cases \o F4Cases \o F5Cases
+Families == <<F2Case, F3Plural, F6Case, F7Case, F8Case, F9Case>> \o F3Cases \o F4Cases \o F5Cases
 =============================================================================
